@@ -759,7 +759,7 @@ SUBS.append(Sub('deffetch', check_deffetch, enumerate=deffetch_cases, shards_qui
 GROWTH = {
     # family: (text(k), small k, large k): time must not explode between the two
     'font-validation': (lambda k: 'a{font:' + 'normal ' * k + '}', 10, 14),
-    'variables-self-reference': (lambda k: '@variables{x:var(x) var(x)}' * k, 2, 3),
+    'variables-self-reference': (lambda k: '@variables{x:var(x) var(x)}' * k, 8, 11),
     'escapes-in-open-string': (lambda k: 'a{x:"' + '\\e9' * k, 12, 20),
     'comment-stars': (lambda k: '/*' + '*' * k, 16, 26),
     'nonascii-ident-validation': (lambda k: 'a{page: ' + 'é' * k + ' 1}', 12, 20),
